@@ -144,6 +144,8 @@ func runC07(c *Ctx) {
 	r.Doc("E5", "close()/Complete() occur only as unconditional defers of goroutine entries", 20)
 	r.Doc("E6", "err channel: written only under err != nil, value originates in the divider check (or is forwarded from the inner discipline)", 3)
 	r.Doc("E7", "v1 Simple: handlers joined (wg.Wait) after cancel and before any signal; wg.Add before go; wg.Done deferred first", 3)
+	r.Doc("E8", "(= B9, B11) actual changes only by +1 per send, -1 per received release, delete at zero", 8)
+	r.Doc("E9", "the error channel never delays termination: made with capacity >= 1 and written at most once per goroutine (reading Err() is optional)", 3)
 	for _, p := range []*Prog{c.V1, c.V2} {
 		sr, err := resolveSchedRoles(p)
 		if err != nil {
@@ -160,6 +162,21 @@ func runC07(c *Ctx) {
 		c07forall(c, sr, sr.allZero, "zero")
 		c07waitZero(c, sr)
 		c07errChannel(c, p)
+		// E8: `actual` is only changed by +1 on a successful send, -1 per received release and (v1)
+		// deletion at zero - otherwise termination is signalled with items unreleased
+		if pr, err := resolvePrio(p); err == nil {
+			sub := &Ctx{V1: c.V1, V2: c.V2, Tier: c.Tier, R: NewReport("tmp", c.Tier)}
+			checkB9(sub, pr)
+			if pr.v1 {
+				checkB11(sub, pr)
+			}
+			for _, o := range sub.R.Obls {
+				c.R.Check(o.OK, "E8", o.Key, o.Site, o.Detail, o.Detail)
+			}
+		} else {
+			r.Fail("E8", p.Name+":priority", "-", err.Error())
+		}
+		errChannelNonBlocking(c, p, "E9")
 	}
 	signalRules(c, c.V1, "E5")
 	signalRules(c, c.V2, "E5")
@@ -252,6 +269,17 @@ func c07loopReturns(c *Ctx, sr *schedRoles) {
 		for _, f := range sr.d.Fields() {
 			if f.Name() == "graceful" {
 				hasGraceful = true
+			}
+		}
+		// the drained test must not be restricted to rounds that moved something: an idle discipline
+		// (processed == 0) is exactly the state in which it has to terminate
+		for _, e := range edges {
+			iff := e.From.Instrs[len(e.From.Instrs)-1].(*ssa.If)
+			if cm := p.NormCmp(iff.Cond, e.Succ == 0); cm != nil && strings.Contains(cm.String(), "base(") && strings.Contains(cm.String(), "#0") {
+				zeroSide := cm.L.String() == "0" || cm.R.String() == "0"
+				if zeroSide && (cm.Op == token.NEQ || cm.Op == token.LSS) && !stop {
+					r.Fail("E1", key+"#idle", p.InstrPos(ret), "the normal return is reachable only after a round that processed something ("+cm.String()+"): once the inputs are closed and empty every round processes nothing, so the discipline never terminates")
+				}
 			}
 		}
 		switch {
@@ -687,6 +715,35 @@ func childJoinRules(c *Ctx, rt *Routine, rule string) {
 				}
 			}
 			r.Check(ctxOK, rule, ekey+"#ctx", p.InstrPos(g), "child receives the cancellable context", "spawned handler is not given the context that the deferred cancel() cancels")
+		}
+	}
+}
+
+// errChannelNonBlocking: every send on an `err` field channel is the accepted non-blocking idiom.
+func errChannelNonBlocking(c *Ctx, p *Prog, rule string) {
+	for _, d := range p.Discs() {
+		for _, e := range d.Gos {
+			rt := p.Routine(d, e)
+			for _, fn := range rt.Funcs {
+				n := 0
+				for _, ss := range p.SendSites(fn) {
+					if p.chanRole(ss.Chan) != "field:err" {
+						continue
+					}
+					n++
+					var bad []string
+					if capc := p.chanCapacityConst(d, "err"); capc < 1 {
+						bad = append(bad, fmt.Sprintf("the error channel is made with capacity %d", capc))
+					}
+					if ss.Case == nil && !p.atMostOnce(e.Entry, ss.In) {
+						bad = append(bad, "more than one send per goroutine life")
+					}
+					if ss.Case != nil && !ss.Sel.HasDefault {
+						bad = append(bad, "the send is a clause of a blocking select: without a reader of Err() (reading it is optional) the goroutine does not end until it is stopped")
+					}
+					c.R.Check(len(bad) == 0, rule, fmt.Sprintf("%s#errsend.%d", p.FnKey(fn), n), p.InstrPos(ss.In), "capacity >= 1, at most one send: cannot block", strings.Join(bad, "; ")+": termination (closing of the channels, return of GracefulStop) waits for somebody to read Err()")
+				}
+			}
 		}
 	}
 }
